@@ -211,3 +211,126 @@ def check_tree_state_not_mutated(
            f'({", ".join(sorted(acc))}); {n_use} bound use(s) examined',
            nontrivial=True)
     return len(acc)
+
+
+def check_param_records_not_edited(ctx, fi, params,
+                                   rule='R-ALIAS/records-read-only'):
+    """a function that turns the mapping results into another
+    representation (data frame, CSV, HDF5) reads the records it is handed;
+    the same list goes on to the next writer and into the JSON output.  The
+    records -- reached by iterating / indexing the parameter -- are not
+    stored into, deleted from or given a mutating method.  `dict(rec)` /
+    `list(x)` / `.copy()` copy one level only: the copy's own keys may be
+    set, but what hangs below them is still the caller's."""
+    params = [p for p in params if p in fi.params]
+    if not params:
+        return 0
+    # alias classes: 'deep' = the caller's object, 'shallow' = a one-level
+    # copy of one
+    cls = {p: 'deep' for p in params}
+    grew = True
+    while grew:
+        grew = False
+        for st in ast.walk(fi.node):
+            new = None
+            tg = None
+            if isinstance(st, ast.For):
+                tg, src = st.target, st.iter
+            elif isinstance(st, ast.Assign) and len(st.targets) == 1:
+                tg, src = st.targets[0], st.value
+            else:
+                continue
+            # what does src denote?
+            kind = None
+            e = src
+            wrap = None
+            if isinstance(e, ast.Call) and isinstance(e.func, ast.Name) \
+                    and e.func.id in ('dict', 'list') and len(e.args) == 1:
+                wrap, e = 'shallow', e.args[0]
+            elif isinstance(e, ast.Call) and isinstance(
+                    e.func, ast.Attribute) and e.func.attr == 'copy' \
+                    and not e.args and not (isinstance(
+                        e.func.value, ast.Name)
+                        and e.func.value.id == 'copy'):
+                wrap, e = 'shallow', e.func.value
+            elif isinstance(e, ast.Call) and isinstance(
+                    e.func, ast.Name) and e.func.id in (
+                        'enumerate', 'reversed', 'sorted') and e.args:
+                e = e.args[0]
+            base = e
+            while isinstance(base, ast.Subscript):
+                base = base.value
+            if isinstance(base, ast.Call) and isinstance(
+                    base.func, ast.Attribute) and base.func.attr in (
+                        'values', 'items') and isinstance(
+                            base.func.value, ast.Name):
+                base = base.func.value
+            if isinstance(base, ast.Name) and base.id in cls:
+                kind = wrap or ('deep' if cls[base.id] in ('deep',
+                                                           'shallow')
+                                else None)
+                # an element of a shallow copy is the caller's again
+                if wrap is None and cls[base.id] == 'shallow' and (
+                        isinstance(st, ast.For) or e is not base):
+                    kind = 'deep'
+                elif wrap is None and cls[base.id] == 'shallow':
+                    kind = 'shallow'
+            if kind is None:
+                continue
+            if isinstance(tg, ast.Name):
+                names = [tg.id]
+            elif isinstance(tg, (ast.Tuple, ast.List)) and all(
+                    isinstance(x, (ast.Name, ast.Tuple, ast.List))
+                    for x in tg.elts):
+                names = [x.id for x in ast.walk(tg)
+                         if isinstance(x, ast.Name)]
+            else:
+                continue        # a store into something: not a binding
+            for nm in names:
+                if nm in params:
+                    # re-binding the parameter name itself to a copy
+                    if cls.get(nm) != kind and kind == 'shallow':
+                        pass
+                    continue
+                if cls.get(nm) != kind and not (cls.get(nm) == 'deep'):
+                    cls[nm] = kind
+                    grew = True
+
+    def depth_and_root(e):
+        d = 0
+        while isinstance(e, ast.Subscript):
+            d += 1
+            e = e.value
+        return d, (e.id if isinstance(e, ast.Name) else None)
+    n = 0
+    bad = []
+    for st in ast.walk(fi.node):
+        tgs = []
+        if isinstance(st, ast.Assign):
+            tgs = st.targets
+        elif isinstance(st, ast.AugAssign):
+            tgs = [st.target]
+        elif isinstance(st, ast.Delete):
+            tgs = st.targets
+        for tg in tgs:
+            if isinstance(tg, ast.Subscript):
+                d, r = depth_and_root(tg)
+                if r in cls and (cls[r] == 'deep' or d >= 2):
+                    bad.append(st)
+        if isinstance(st, ast.Call) and isinstance(
+                st.func, ast.Attribute) and st.func.attr in MUTATORS:
+            d, r = depth_and_root(st.func.value)
+            if r in cls and (cls[r] == 'deep' or d >= 1):
+                bad.append(st)
+    for p in params:
+        n += 1
+        ctx.touch(fi)
+        ok = not bad
+        ctx.ob(rule, f'{fi.qual}:{p}', fi.loc(bad[0]) if bad else fi.loc(),
+               ok, f'the records handed in as `{p}` are only read' if ok
+               else f'`{unparse(bad[0])[:60]}` edits a record reached '
+               f'from the parameter `{p}` (a one-level copy still shares '
+               'what hangs below its keys): the caller\'s results -- the '
+               'ones written to the other outputs -- lose or change that '
+               'field')
+    return n
